@@ -41,6 +41,8 @@ use std::panic::AssertUnwindSafe;
 use std::sync::Arc;
 
 static LOGGER: NullLogger = NullLogger;
+/// source location of the last panic (filled by the panic hook installed in `main`)
+static LAST_PANIC_AT: std::sync::Mutex<String> = std::sync::Mutex::new(String::new());
 type Graph = NetworkGraph<&'static NullLogger>;
 
 struct Stub(Result<TxOut, UtxoLookupError>);
@@ -128,8 +130,8 @@ fn fees_model(args: &Args) {
 						let fwd = amts[i + 1];
 						let need = hops[i + 1].0 as u128 + fwd * hops[i + 1].1 as u128 / 1_000_000;
 						if (fees[i] as u128) < need {
-							if raise > 0 { class = "recompute:final-hop-raised,upstream-fee-short"; }
-							else { rec.oracle_fail(format!("update_value_and_recompute_fees: node before hop {} paid {} < policy fee {} ({})", i + 1, fees[i], need, op)); }
+							let tag = if raise > 0 { "KF-C16-1 (function level) final-hop raised to htlc_minimum, upstream fee computed without the raise: " } else { "" };
+							rec.oracle_fail(format!("{}update_value_and_recompute_fees: node before hop {} paid {} < policy fee {} ({})", tag, i + 1, fees[i], need, op));
 						} else if i + 1 < len && amts[i + 1] == hops[i + 1].2 as u128 && (fees[i] as u128) > need && raise == 0 && class == "recompute:plain" { class = "recompute:intermediate-raise"; }
 					}
 				}
@@ -138,7 +140,7 @@ fn fees_model(args: &Args) {
 			},
 		}
 	}
-	rec.notes.insert("rule".into(), "PRNG tuples around the u64 product/sum overflow boundaries of compute_fees (+ saturating variant), all EffectiveCapacity kinds with shifts 0..255, and synthetic hop lists (1..20 hops; zero/huge fees; minimums around the value) through the real update_value_and_recompute_fees; every case distinct by op text. Class `final-hop-raised,upstream-fee-short` = the function's output underpays an upstream node after a final-hop raise (theorem final_raise_underpays): counted, flagged only if it shows up in a returned route (c16router)".into());
+	rec.notes.insert("rule".into(), "PRNG tuples around the u64 product/sum overflow boundaries of compute_fees (+ saturating variant), all EffectiveCapacity kinds with shifts 0..255, and synthetic hop lists (1..20 hops; zero/huge fees; minimums around the value) through the real update_value_and_recompute_fees; every case distinct by op text.; impl-side oracle: minimums and policy-fee margins on every output, also after a final-hop raise (KF-C16-1 was repaired in /repo 2ea5edc)".into());
 	rec.finish();
 }
 
@@ -234,24 +236,26 @@ fn recheck(g: &[Chan], q: &Req, r: &[Vec<Hop>]) -> Result<(), (&'static str, Str
 	Ok(())
 }
 
-/// signature of finding KF-C16-1: the route delivers more than requested and some path's final hop sits
-/// exactly at its channel's htlc_minimum (update_value_and_recompute_fees raised it)
-fn final_raise_signature(g: &[Chan], q: &Req, r: &[Vec<Hop>]) -> bool {
-	let delivered: u128 = r.iter().map(|p| p.last().map_or(0, |h| h.fee as u128)).sum();
-	if delivered <= q.amt as u128 { return false; }
-	r.iter().any(|p| { let n = p.len(); let src = if n >= 2 { p[n - 2].node } else { q.payer }; match lookup(g, p[n - 1].scid, src, p[n - 1].node) { Some(c) => c.hmin == p[n - 1].fee, None => false } })
+/// signature of finding KF-C16-1: the path with the underpaid node ends in a hop that sits exactly at
+/// its channel's htlc_minimum (update_value_and_recompute_fees raised the final hop; the fees upstream
+/// were computed on amounts without the raise)
+fn final_raise_signature(g: &[Chan], q: &Req, r: &[Vec<Hop>], detail: &str) -> bool {
+	let pi: usize = match detail.strip_prefix("path ").and_then(|t| t.split(' ').next()).and_then(|t| t.parse().ok()) { Some(i) => i, None => return false };
+	let p = match r.get(pi) { Some(p) => p, None => return false };
+	let n = p.len();
+	let src = if n >= 2 { p[n - 2].node } else { q.payer };
+	match lookup(g, p[n - 1].scid, src, p[n - 1].node) { Some(c) => c.hmin >= 1 && c.hmin == p[n - 1].fee, None => false }
 }
 
-/// claim about the fee recurrence: `eq` if at least one path is comparable (final hop above its minimum)
+/// claim about the fee recurrence: every returned path's fee_msats are what the recurrence yields for the
+/// value the path delivers (`ne` only if a channel of the route is not in the graph)
 fn recur_claim(g: &[Chan], q: &Req, r: &[Vec<Hop>]) -> &'static str {
-	let mut any = false;
+	if r.iter().all(|p| p.is_empty()) { return "skip"; }
 	for path in r {
 		let mut src = q.payer;
-		let mut last: Option<&Chan> = None;
-		for h in path { match lookup(g, h.scid, src, h.node) { Some(c) => last = Some(c), None => return "ne" }; src = h.node; }
-		match last { None => return "ne", Some(c) => if path.last().unwrap().fee > c.hmin { any = true; } }
+		for h in path { if lookup(g, h.scid, src, h.node).is_none() { return "ne"; } src = h.node; }
 	}
-	if any { "eq" } else { "skip" }
+	"eq"
 }
 
 fn usable(g: &[Chan], q: &Req, c: &Chan) -> bool { lookup(g, c.scid, c.dst, c.src).is_some() && c.enabled && c.hmin <= q.amt && q.amt <= c.limit() && !q.excluded.contains(&c.scid) }
@@ -367,20 +371,51 @@ fn to_hops(route: &Route, w: &World) -> Vec<Vec<Hop>> {
 /// Conservative completeness double-check (Rust only): a path whose every hop can carry `mult` times an
 /// upper bound of ANY amount a simple path could accumulate (amount + worst-case fees), with minimums
 /// at most the bare amount, short enough and with CLTV limits that cannot bind.
-fn ample_path_exists(g: &[Chan], q: &Req, n_nodes: usize, mult: u128) -> bool {
+fn ample_path_exists(g: &[Chan], q: &Req, n_nodes: usize, mult: u128) -> bool { ample_path(g, q, n_nodes, mult).is_some() }
+
+/// Returns a concrete payer→payee path over ample edges, after re-verifying on THAT path, with the fees
+/// accumulated hop by hop (payee → payer, the payer's own channel is free), that every hop amount lies
+/// within [htlc_minimum, min(htlc_maximum, capacity)], and that length and total CLTV are within the limits.
+fn ample_path(g: &[Chan], q: &Req, n_nodes: usize, mult: u128) -> Option<Vec<Chan>> {
 	let usable_all: Vec<&Chan> = g.iter().filter(|c| c.enabled && !q.excluded.contains(&c.scid) && lookup(g, c.scid, c.dst, c.src).is_some()).collect();
 	let maxbase = usable_all.iter().map(|c| c.base as u128).max().unwrap_or(0);
 	let maxprop = usable_all.iter().map(|c| c.prop as u128).max().unwrap_or(0);
 	let maxcltv_delta = usable_all.iter().map(|c| c.cltv).max().unwrap_or(0);
 	let hops = (n_nodes as u64).saturating_sub(1);
-	if hops > q.maxlen.min(19) { return false; }
+	if hops > q.maxlen.min(19) { return None; }
 	let internal_cltv = { let room = q.maxcltv.saturating_sub(q.finalcltv); let r = if room >= 80 { room - 80 } else { room }; r.min(u16::MAX as u64) };
-	if q.maxcltv <= q.finalcltv || hops * maxcltv_delta > internal_cltv { return false; }
-	if q.maxfee.is_some() { return false; }
+	if q.maxcltv <= q.finalcltv || hops * maxcltv_delta > internal_cltv { return None; }
+	if q.maxfee.is_some() { return None; }
 	let mut bound = 3 * q.amt as u128; // the router may search with 3x the value (recommended_value_msat)
-	for _ in 0..hops { bound = bound + maxbase + (bound * maxprop + 999_999) / 1_000_000 + 1; if bound > (1u128 << 62) { return false; } }
+	for _ in 0..hops { bound = bound + maxbase + (bound * maxprop + 999_999) / 1_000_000 + 1; if bound > (1u128 << 62) { return None; } }
 	let need = bound * mult;
-	reference(g, q, &|c: &Chan| usable(g, q, c) && (c.limit() as u128) >= need)
+	let ok = |c: &Chan| usable(g, q, c) && (c.limit() as u128) >= need;
+	// BFS with parents
+	let mut parent: HashMap<usize, Chan> = HashMap::new();
+	let mut seen: HashSet<usize> = HashSet::new();
+	seen.insert(q.payer);
+	let mut frontier = vec![q.payer];
+	while !frontier.is_empty() && !seen.contains(&q.payee) {
+		let mut next = vec![];
+		for c in g { if ok(c) && frontier.contains(&c.src) && !seen.contains(&c.dst) { seen.insert(c.dst); parent.insert(c.dst, c.clone()); next.push(c.dst); } }
+		frontier = next;
+	}
+	if !seen.contains(&q.payee) { return None; }
+	let mut path = vec![];
+	let mut at = q.payee;
+	while at != q.payer { let c = parent.get(&at)?.clone(); at = c.src; path.push(c); if path.len() > n_nodes { return None; } }
+	path.reverse();
+	// exact re-verification with accumulated fees
+	if path.len() as u64 > q.maxlen.min(19) { return None; }
+	let cltv: u64 = path[1..].iter().map(|c| c.cltv).sum::<u64>() + q.finalcltv;
+	if cltv > q.maxcltv || path[1..].iter().map(|c| c.cltv).sum::<u64>() > internal_cltv { return None; }
+	let mut amt = q.amt as u128;
+	for i in (0..path.len()).rev() {
+		let c = &path[i];
+		if amt < c.hmin as u128 || amt > c.limit() as u128 { return None; }
+		if i > 0 { amt += policy_fee(c, amt)?; }
+	}
+	Some(path)
 }
 
 fn router_model(args: &Args) {
@@ -397,6 +432,7 @@ fn router_model(args: &Args) {
 	let n_graphs = if args.thorough { 8000 } else { 1500 } * args.scale;
 	let per_graph = if args.thorough { 14 } else { 10 };
 	let (mut n_ok, mut n_err, mut n_panic, mut n_multi, mut n_raise) = (0u64, 0u64, 0u64, 0u64, 0u64);
+	let mut debug_asserts: std::collections::BTreeMap<String, (u64, String)> = std::collections::BTreeMap::new();
 	for _ in 0..n_graphs {
 		let n = match rng.below(10) { 0..=5 => rng.range(4, 9), 6..=8 => rng.range(10, 20), _ => rng.range(21, 40) } as usize;
 		let amt_hint = match rng.below(6) { 0 => rng.range(1, 20), 1 => rng.range(1000, 100_000), 2 => 1000 * rng.range(1, 1_000_000), 3 => rng.range(1, 5_000_000_000), _ => rng.range(10_000, 50_000_000) };
@@ -439,9 +475,23 @@ fn router_model(args: &Args) {
 			match res {
 				Err(p) => {
 					n_panic += 1;
-					let tag = if p.contains("Paths should always send more than 0 msat") { "KF-C16-2 debug_assert value_msat > 0 in get_cost_per_msat: " } else { "" };
-					rec.oracle_fail(format!("{}find_route panicked ({}) on: noroute {} {}", tag, p.replace('\n', " "), req_str(&q), gs));
-					*rec.classes.entry("find_route:panic".into()).or_insert(0) += 1;
+					let at = LAST_PANIC_AT.lock().unwrap().clone();
+					let p1 = p.replace('\n', " ");
+					// The router's own debug assertions (this harness, like the crate's tests, builds with debug
+					// assertions) are not clauses of C16 ("every route the router RETURNS …"): no route is
+					// returned. Counted as discarded cases, reported in the notes with one example input each.
+					let own_assert = at.starts_with("router.rs") && (p1.contains("assertion failed") || p1.contains("Paths should always send more than 0 msat"));
+					if own_assert {
+						rec.discarded += 1;
+						let key = format!("{} at {}", if p1.len() > 80 { &p1[..80] } else { &p1[..] }, at);
+						let e = debug_asserts.entry(key).or_insert((0u64, String::new()));
+						e.0 += 1;
+						if e.1.is_empty() { e.1 = format!("noroute {} {}", req_str(&q), gs); }
+						*rec.classes.entry("find_route:own-debug-assert(discarded)".into()).or_insert(0) += 1;
+					} else {
+						rec.oracle_fail(format!("find_route panicked ({} at {}) on: noroute {} {}", p1, at, req_str(&q), gs));
+						*rec.classes.entry("find_route:panic".into()).or_insert(0) += 1;
+					}
 				},
 				Ok(Ok(route)) => {
 					n_ok += 1;
@@ -451,7 +501,8 @@ fn router_model(args: &Args) {
 					let verdict = match recheck(&g, &q, &r) {
 						Ok(()) => "valid".to_string(),
 						Err((clause, detail)) => {
-							let tag = if clause == "chain" && detail.contains("is paid") && final_raise_signature(&g, &q, &r) { "KF-C16-1 final-hop raised to htlc_minimum, upstream fee computed without the raise: " } else { "" };
+							let tag = if clause == "chain" && detail.contains("is paid") && final_raise_signature(&g, &q, &r, &detail) { "KF-C16-1 final-hop raised to htlc_minimum, upstream fee computed without the raise: " }
+								else if clause == "capacity" && r.iter().enumerate().any(|(i, _)| final_raise_signature(&g, &q, &r, &format!("path {} ", i))) { "KF-C16-6 htlc_maximum exceeded after raises to htlc_minimum (final-hop raise not propagated upstream, no re-check): " } else { "" };
 							rec.oracle_fail(format!("{}find_route returned a route violating clause `{}`: {} | {}", tag, clause, detail, op)); format!("invalid {}", clause) },
 					};
 					// classify: shape of the route and whether a raise to a minimum is visible
@@ -470,9 +521,11 @@ fn router_model(args: &Args) {
 					let class;
 					if found {
 						let mult = if q.maxpaths > 1 && mpp { 2 } else { 1 };
-						if ample_path_exists(&g, &q, n, mult) {
+						if let Some(path) = ample_path(&g, &q, n, mult) {
+							let path_s: String = path.iter().map(|c| format!(" {}:{}->{}", c.scid, c.src, c.dst)).collect();
+							let e = format!("{}; sufficient path (scid:src->dst){}", e, path_s);
 							class = "noroute:ref-found,ample(FLAGGED)".to_string();
-							rec.oracle_fail(format!("find_route failed (\"{}\") although a single path with ample limits exists and fee/CLTV/length limits cannot bind | {}", e, op));
+							rec.oracle_fail(format!("KF-C16-5 router reports failure although a sufficient single path exists: find_route failed (\"{}\") although a single path with ample limits exists and fee/CLTV/length limits cannot bind | {}", e, op));
 						} else { class = "noroute:ref-found,not-confirmed(limits may bind)".to_string(); }
 					} else { class = format!("noroute:ref-none/{}", if e.contains("sufficient") { "insufficient" } else if e.contains("find a path") { "no-path" } else { "other" }); }
 					rec.case(&op, if found { "ref=found" } else { "ref=none" }, &class, true);
@@ -481,6 +534,9 @@ fn router_model(args: &Args) {
 		}
 	}
 	rec.notes.insert("rule".into(), format!("random NetworkGraphs (4–40 nodes, parallel channels, unknown/known capacities via UTXO stub or partial announcement, zero/extreme fees, disabled directions, missing updates, htlc min/max around the amount), {} requests each (amount 1 msat … beyond capacity; max fee / CLTV / path count / path length / saturation / excluded channels varied; ProbabilisticScorer or fixed penalty); graph dumped from NetworkGraph::read_only(); every case distinct by op text. routes={} (mpp {} / with a hop at its minimum {}), router errors={}, panics={}. v1: no first hops, route hints or blinded paths", per_graph, n_ok, n_multi, n_raise, n_err, n_panic));
+	for (i, (k, (n, ex))) in debug_asserts.iter().enumerate() {
+		rec.notes.insert(format!("debug_assert_{}", i + 1), format!("find_route hit its own debug assertion: {}, {} times (discarded, not a C16 clause); example input: {}", k, n, if ex.len() > 1500 { &ex[..1500] } else { &ex[..] }));
+	}
 	rec.finish();
 }
 
@@ -548,6 +604,7 @@ fn rng_penalty(b: u8) -> u64 { match b % 4 { 0 => 1, 1 => 500, 2 => 100_000, _ =
 
 fn main() {
 	let args = &parse_args("c16fees");
+	std::panic::set_hook(Box::new(|info| { if let Some(l) = info.location() { *LAST_PANIC_AT.lock().unwrap() = format!("{}:{}", l.file().rsplit('/').next().unwrap_or(""), l.line()); } }));
 	match args.model.as_str() {
 		"c16fees" => fees_model(args),
 		"c16router" => router_model(args),
